@@ -1,6 +1,7 @@
 package main
 
 import (
+	"golang.org/x/tools/go/ssa"
 	"fmt"
 	"go/ast"
 	"go/parser"
@@ -137,143 +138,214 @@ func checkC05(w *World, r *Report) {
 
 func c05Recover(w *World, r *Report) {
 	run := w.Method("xpath", "context", "Run")
-	fd, p := w.FuncDecl(run)
+	f := w.SSAFunc(run)
+	if f == nil {
+		panic(undecided{"context.Run"})
+	}
 	runErr := w.Field("xpath", "Result", "runErr")
-	// deferred closure with recover()
-	ok := false
-	for _, s := range fd.Body.List {
-		ds, isD := s.(*ast.DeferStmt)
-		if !isD {
+	sym := NewSym(w)
+	// a deferred function, installed before anything else can panic, that
+	// stores the error and the result exactly when recover() returned non-nil
+	why := "no deferred function that recovers"
+	var deferAt *ssa.Defer
+	for _, in := range f.Blocks[0].Instrs {
+		d, ok := in.(*ssa.Defer)
+		if !ok {
+			if c, isCall := in.(*ssa.Call); isCall {
+				if _, builtin := c.Call.Value.(*ssa.Builtin); !builtin && deferAt == nil {
+					why = "Run calls " + pcCalleeName(c.Common()) + " before the recovering function is deferred"
+				}
+			}
 			continue
 		}
-		fl, isF := ds.Call.Fun.(*ast.FuncLit)
-		if !isF {
+		mc, ok := d.Call.Value.(*ssa.MakeClosure)
+		if !ok {
 			continue
 		}
-		ast.Inspect(fl.Body, func(n ast.Node) bool {
-			is, isIf := n.(*ast.IfStmt)
-			if !isIf || is.Init == nil {
-				return true
+		h := mc.Fn.(*ssa.Function)
+		var rec *ssa.Call
+		for _, b := range h.Blocks {
+			for _, in2 := range b.Instrs {
+				if c, ok := in2.(*ssa.Call); ok {
+					if bi, ok := c.Call.Value.(*ssa.Builtin); ok && bi.Name() == "recover" {
+						rec = c
+					}
+				}
 			}
-			as, isA := is.Init.(*ast.AssignStmt)
-			if !isA || len(as.Rhs) != 1 {
-				return true
+		}
+		if rec == nil {
+			continue
+		}
+		deferAt = d
+		classify := func(a *pcAtom) string {
+			if a.op == token.EQL && (a.x == ssa.Value(rec) && isNilConst(a.y) || a.y == ssa.Value(rec) && isNilConst(a.x)) {
+				return "nopanic"
 			}
-			ce, isC := as.Rhs[0].(*ast.CallExpr)
-			if !isC {
-				return true
-			}
-			if id, isI := ce.Fun.(*ast.Ident); !isI || id.Name != "recover" {
-				return true
-			}
-			storesErr := len(assignsToField(p, is.Body, runErr)) >= 1
-			assignsRes := false
-			if fd.Type.Results != nil && len(fd.Type.Results.List) == 1 && len(fd.Type.Results.List[0].Names) == 1 {
-				resObj := p.TypesInfo.Defs[fd.Type.Results.List[0].Names[0]]
-				ast.Inspect(is.Body, func(x ast.Node) bool {
-					if a, ok := x.(*ast.AssignStmt); ok {
-						for _, l := range a.Lhs {
-							if objOfIdent(p, l) == resObj {
-								assignsRes = true
+			return ""
+		}
+		okErr, okRes := "no store to runErr", "no store to Run's result"
+		for _, b := range h.Blocks {
+			for _, in2 := range b.Instrs {
+				st, ok := in2.(*ssa.Store)
+				if !ok {
+					continue
+				}
+				cond := sym.PathCond(h.Blocks[0], b, nil)
+				msg := pcCompare(cond, classify, func(env map[string]bool) bool { return !env["nopanic"] })
+				if fa, ok := st.Addr.(*ssa.FieldAddr); ok && isFieldAddrOf(fa, runErr) {
+					okErr = msg
+				}
+				if fv, ok := st.Addr.(*ssa.FreeVar); ok {
+					// the named result of Run, captured by reference
+					for i, x := range h.FreeVars {
+						if x == fv {
+							if al, ok := mc.Bindings[i].(*ssa.Alloc); ok && strings.HasPrefix(al.Comment, "res") || ok && f.Signature.Results().Len() == 1 && al.Comment == f.Signature.Results().At(0).Name() {
+								okRes = msg
 							}
 						}
 					}
-					return true
-				})
+				}
 			}
-			if storesErr && assignsRes {
-				ok = true
-			}
-			return true
-		})
+		}
+		why = ""
+		if okErr != "" {
+			why = "the error is not stored exactly when a panic was recovered: " + okErr
+		} else if okRes != "" {
+			why = "the result is not set exactly when a panic was recovered: " + okRes
+		}
 	}
-	r.Check(ok, "R05.1", "context.Run deferred recover", fd.Pos(), "recover() ≠ nil ⇒ runErr set and result returned", "Run no longer converts a panic of an instruction into an error result")
-	// who calls Inst.fn
-	fnField := w.Field("xpath", "Inst", "fn")
+	r.Check(why == "", "R05.1", "context.Run deferred recover", f.Pos(), "recover() ≠ nil ⇔ runErr set and result returned", "Run no longer converts a panic of an instruction into an error result: "+why)
+	// who calls Inst.fn: Run, or a helper nobody but Run uses
 	n := 0
-	for _, pk := range w.All {
-		for _, f := range funcDecls(pk) {
-			if isTestFile(w, f.Pos()) {
+	for _, key := range []string{"xpath", "xpath/grammars/expr", "xpath/grammars/leafref", "xpath/grammars/path_eval", "xpath/xutils"} {
+		for _, g := range allFuncs(w.SSAPkg(key)) {
+			if isTestFile(w, g.Pos()) {
 				continue
 			}
-			ast.Inspect(f.Body, func(x ast.Node) bool {
-				ce, isC := x.(*ast.CallExpr)
-				if !isC || fieldOfSel(pk, ce.Fun) != fnField {
-					return true
-				}
+			for _, c := range c05InstCalls(w, g) {
 				n++
-				r.Check(pk.TypesInfo.Defs[f.Name] == run, "R05.1", "Inst.fn called in "+funcDeclName(f), ce.Pos(), "inside Run", "an instruction is executed outside context.Run: its panics are not converted into errors")
-				return true
-			})
+				r.Check(w.OwnedBy(g, f), "R05.1", "Inst.fn called in "+funcKey(g), c.Pos(), "inside Run (or a helper only Run uses)", "an instruction is executed outside context.Run: its panics are not converted into errors")
+			}
 		}
 	}
 	if n == 0 {
-		r.Fail("R05.1", "Inst.fn call sites", fd.Pos(), "no call through Inst.fn found")
+		r.Fail("R05.1", "Inst.fn call sites", f.Pos(), "no call through Inst.fn found")
 	}
 }
 
-func c05FirstError(w *World, r *Report) {
-	run := w.Method("xpath", "context", "Run")
-	fd, p := w.FuncDecl(run)
-	runErr := w.Field("xpath", "Result", "runErr")
+// c05InstCalls: the calls in g whose callee is loaded from Inst.fn.
+func c05InstCalls(w *World, g *ssa.Function) []*ssa.Call {
 	fnField := w.Field("xpath", "Inst", "fn")
-	isErrTest := func(e ast.Expr, op token.Token) bool {
-		be, ok := ast.Unparen(e).(*ast.BinaryExpr)
-		return ok && be.Op == op && fieldOfSel(p, be.X) == runErr && isNilIdent(p, be.Y)
-	}
-	loopLeaves := false
-	ast.Inspect(fd.Body, func(n ast.Node) bool {
-		var body *ast.BlockStmt
-		switch x := n.(type) {
-		case *ast.RangeStmt:
-			body = x.Body
-		case *ast.ForStmt:
-			body = x.Body
-		}
-		if body == nil {
-			return true
-		}
-		// the loop that runs instructions
-		runs := false
-		callIdx := -1
-		for i, s := range body.List {
-			ast.Inspect(s, func(x ast.Node) bool {
-				if ce, ok := x.(*ast.CallExpr); ok && fieldOfSel(p, ce.Fun) == fnField {
-					runs = true
-					callIdx = i
+	var out []*ssa.Call
+	for _, b := range g.Blocks {
+		for _, in := range b.Instrs {
+			c, ok := in.(*ssa.Call)
+			if !ok || c.Call.IsInvoke() || c.Call.StaticCallee() != nil {
+				continue
+			}
+			v := c.Call.Value
+			switch x := v.(type) {
+			case *ssa.Field:
+				st := x.X.Type().Underlying().(*types.Struct)
+				if st.Field(x.Field) == fnField {
+					out = append(out, c)
 				}
-				return true
-			})
-		}
-		if !runs {
-			return true
-		}
-		for _, s := range body.List[callIdx+1:] {
-			if is, ok := s.(*ast.IfStmt); ok && isErrTest(is.Cond, token.NEQ) && len(is.Body.List) > 0 {
-				switch l := is.Body.List[len(is.Body.List)-1].(type) {
-				case *ast.BranchStmt:
-					loopLeaves = l.Tok == token.BREAK
-				case *ast.ReturnStmt:
-					loopLeaves = true
+			case *ssa.UnOp:
+				if fa, ok := x.X.(*ssa.FieldAddr); ok && isFieldAddrOf(fa, fnField) {
+					out = append(out, c)
 				}
 			}
 		}
-		return true
-	})
-	// alternatively: the handler's store is guarded
-	guarded := false
-	for _, s := range fd.Body.List {
-		if ds, ok := s.(*ast.DeferStmt); ok {
-			ast.Inspect(ds, func(n ast.Node) bool {
-				if is, ok := n.(*ast.IfStmt); ok && isErrTest(is.Cond, token.EQL) && len(assignsToField(p, is.Body, runErr)) > 0 {
-					guarded = true
+	}
+	return out
+}
+
+// c05FirstError (R05.2): once an instruction has recorded an error no further
+// instruction runs: in the loop that executes instructions every way back to
+// the loop head passes a test that runErr is still nil (or the recovering
+// handler only stores when runErr is nil).
+func c05FirstError(w *World, r *Report) {
+	run := w.SSAFunc(w.Method("xpath", "context", "Run"))
+	if run == nil {
+		panic(undecided{"context.Run"})
+	}
+	runErr := w.Field("xpath", "Result", "runErr")
+	sym := NewSym(w)
+	isErrNil := func(a *pcAtom) string {
+		if a.op != token.EQL || a.x == nil {
+			return ""
+		}
+		for _, pair := range [][2]ssa.Value{{a.x, a.y}, {a.y, a.x}} {
+			if !isNilConst(pair[1]) {
+				continue
+			}
+			if ld, ok := pair[0].(*ssa.UnOp); ok && ld.Op == token.MUL {
+				if fa, ok := ld.X.(*ssa.FieldAddr); ok && isFieldAddrOf(fa, runErr) {
+					return "errnil"
 				}
-				return true
-			})
+			}
+		}
+		return ""
+	}
+	why := "no loop that executes instructions found"
+	loopLeaves := false
+	var at token.Pos = run.Pos()
+	for _, key := range []string{"xpath"} {
+		for _, g := range allFuncs(w.SSAPkg(key)) {
+			for _, c := range c05InstCalls(w, g) {
+				l, ok := loopOf(g, c.Block())
+				if !ok {
+					why = "instructions are not executed in a loop"
+					continue
+				}
+				at = c.Pos()
+				why = ""
+				loopLeaves = true
+				for _, latch := range l.Latches {
+					if !c.Block().Dominates(latch) {
+						// a way round the loop that does not execute an instruction
+						continue
+					}
+					cond := pcAndF(sym.PathCond(c.Block(), latch, nil), sym.edgeCond(latch, l.Header, nil))
+					if msg := pcImplies(cond, isErrNil, func(env map[string]bool) bool { return env["errnil"] }); msg != "" {
+						loopLeaves = false
+						why = msg
+					}
+				}
+			}
 		}
 	}
-	r.Check(loopLeaves || guarded, "R05.2", "context.Run error latch", fd.Pos(), fmt.Sprintf("loop leaves on runErr != nil: %v; handler store guarded: %v", loopLeaves, guarded),
-		"after an instruction records the data tree's error the loop keeps executing and the recover handler overwrites runErr unconditionally: the caller sees an unrelated internal error (e.g. \"Stack underflow\") instead of the tree's")
+	// alternatively: the handler's store is guarded
+	guarded := false
+	for _, in := range run.Blocks[0].Instrs {
+		d, ok := in.(*ssa.Defer)
+		if !ok {
+			continue
+		}
+		mc, ok := d.Call.Value.(*ssa.MakeClosure)
+		if !ok {
+			continue
+		}
+		h := mc.Fn.(*ssa.Function)
+		n, okAll := 0, true
+		for _, b := range h.Blocks {
+			for _, in2 := range b.Instrs {
+				if st, ok := in2.(*ssa.Store); ok {
+					if fa, ok := st.Addr.(*ssa.FieldAddr); ok && isFieldAddrOf(fa, runErr) {
+						n++
+						if pcImplies(sym.PathCond(h.Blocks[0], b, nil), isErrNil, func(env map[string]bool) bool { return env["errnil"] }) != "" {
+							okAll = false
+						}
+					}
+				}
+			}
+		}
+		if n > 0 && okAll {
+			guarded = true
+		}
+	}
+	r.Check(loopLeaves || guarded, "R05.2", "context.Run error latch", at, fmt.Sprintf("loop leaves on runErr != nil: %v; handler store guarded: %v", loopLeaves, guarded),
+		"after an instruction records the data tree's error the loop keeps executing and the recover handler overwrites runErr unconditionally: the caller sees an unrelated internal error (e.g. \"Stack underflow\") instead of the tree's ("+why+")")
 }
 
 func c05TreeErrors(w *World, r *Report) {
@@ -567,6 +639,9 @@ func scanPanicObligations(w *World, r *Report, rule string, cone map[*types.Func
 			continue
 		}
 		name := funcDeclName(fd)
+		// a helper used by one function only speaks for that function: its
+		// accesses may take the reviewed entries of the function it was split off
+		ownerNames := w.OwnerNamesOf(f)[1:]
 		insp := inspectNoLit
 		if withLits {
 			insp = func(n ast.Node, f func(ast.Node) bool) { ast.Inspect(n, f) }
@@ -575,6 +650,11 @@ func scanPanicObligations(w *World, r *Report, rule string, cone map[*types.Func
 		// function whose expression is equal up to the names of locals, provided the number of such orphan
 		// accesses equals the number of such orphan entries (a new access changes the count and stays open)
 		alphaPairs := alphaFallback(w, fd, insp, name, reviewed)
+		for _, on := range ownerNames {
+			if len(alphaPairs) == 0 {
+				alphaPairs = alphaFallback(w, fd, insp, on, reviewed)
+			}
+		}
 		insp(fd.Body, func(n ast.Node) bool {
 			var expr ast.Expr
 			kind := ""
@@ -638,6 +718,13 @@ func scanPanicObligations(w *World, r *Report, rule string, cone map[*types.Func
 			for i := range reviewed {
 				if reviewed[i].Func == name && reviewed[i].Expr == es {
 					rev = &reviewed[i]
+				}
+			}
+			for _, on := range ownerNames {
+				for i := range reviewed {
+					if rev == nil && reviewed[i].Func == on && reviewed[i].Expr == es {
+						rev = &reviewed[i]
+					}
 				}
 			}
 			if rev == nil {
@@ -843,48 +930,41 @@ func c05Message(w *World, r *Report) {
 	})
 	r.Check(nfmt > 0 && nfmt == nconst, "R05.6", "CreateProgram format strings", fd.Pos(), fmt.Sprintf("%d printf-style calls, all with constant formats", nfmt), fmt.Sprintf("%d of %d printf-style calls use a non-constant format: a '%%' in the user's expression would be interpreted as a verb and garble the message", nfmt-nconst, nfmt))
 	r.Check(quotes, "R05.6", "CreateProgram quotes the expression", fd.Pos(), "'%s' ← expr", "the message no longer quotes the expression parameter")
-	// the position marker: final Errorf has two arguments derived from slicing expr
+	// the position marker: the message with "[X]" gets two different values computed from expr
 	okLoc := false
-	ast.Inspect(fd.Body, func(n ast.Node) bool {
-		ret, ok := n.(*ast.ReturnStmt)
-		if !ok || len(ret.Results) != 2 {
-			return true
-		}
-		ce, ok := ret.Results[1].(*ast.CallExpr)
-		if !ok {
-			return true
-		}
-		s, isC := ConstStr(p, ce.Args[0])
-		if !isC || !strings.Contains(s, "[X]") {
-			return true
-		}
-		// trailing args are locals assigned from slices of expr
-		nslice := 0
-		for _, a := range ce.Args[1:] {
-			o := objOfIdent(p, a)
-			ast.Inspect(fd.Body, func(x ast.Node) bool {
-				if as, ok := x.(*ast.AssignStmt); ok && len(as.Lhs) == 1 && objOfIdent(p, as.Lhs[0]) == o {
-					if se, ok := ast.Unparen(as.Rhs[0]).(*ast.SliceExpr); ok {
-						root := false
-						ast.Inspect(se.X, func(y ast.Node) bool {
-							if id, ok := y.(*ast.Ident); ok && p.TypesInfo.Uses[id] == exprObj {
-								root = true
-							}
-							return true
-						})
-						if root {
-							nslice++
+	if sf := w.SSAFunc(cp); sf != nil {
+		for _, b := range sf.Blocks {
+			for _, in := range b.Instrs {
+				c, ok := in.(*ssa.Call)
+				if !ok || c.Call.StaticCallee() == nil || c.Call.StaticCallee().String() != "fmt.Errorf" || len(c.Call.Args) != 2 {
+					continue
+				}
+				k, ok := c.Call.Args[0].(*ssa.Const)
+				if !ok || k.Value == nil || !strings.Contains(constant.StringVal(k.Value), "[X]") {
+					continue
+				}
+				sl, ok := c.Call.Args[1].(*ssa.Slice)
+				if !ok {
+					continue
+				}
+				lits := sliceLiteral(sl)
+				n := 0
+				seen := map[ssa.Value]bool{}
+				for _, l := range lits {
+					v := stripIface(l)
+					if rootParams(v, sf)[1] && !seen[v] {
+						if _, isParam := v.(*ssa.Parameter); !isParam {
+							n++
 						}
 					}
+					seen[v] = true
 				}
-				return true
-			})
+				if n >= 2 {
+					okLoc = true
+				}
+			}
 		}
-		if nslice == 2 {
-			okLoc = true
-		}
-		return true
-	})
+	}
 	r.Check(okLoc, "R05.6", "CreateProgram position marker", fd.Pos(), "'<parsed> [X] <unparsed>' from two slices of expr", "the error no longer marks a position inside the expression")
 }
 
